@@ -1,11 +1,150 @@
 //! Projections of a compilation used by property C05 (engine `compile`, projection names `c05:<name>`).
+//!
+//! `c05:cycles`  `E032=[root:c0.f0,c1.f1,…|…];E019=[alias|…];oncycle=[type|…];oracle=ok|FAIL(…)`
+//!     * E032: one entry per infinite-size diagnostic, sorted (a multiset; the order of diagnostics is not compared).
+//!       `root` = the struct/enum the diagnostic points at (found by span), then link by link the type that holds the
+//!       field a note points at (found by span) and the field's identifier. Message texts are not compared.
+//!     * E019: the aliases self-referential-alias diagnostics point at (by span), sorted.
+//!     * oncycle: the types that contain themselves, computed HERE from the compiled AST by a transitive closure
+//!       (the driver computes the same list from the abstract graph it generated).
+//!     * oracle: the property's predicate on the implementation's own reports, independent of the detector model:
+//!       every chain is a closed path of fields of the AST's containment graph starting at its root, every type it
+//!       passes through is named in the message, every type on a cycle is passed through by some chain, and there is
+//!       no report when nothing is on a cycle.
+//!     Other error codes are deliberately not part of this projection (C04's business).
+//! `c05:alias`   `E019=[…];E033=<count>;rejected=0|1`
+//! `c05:inherit` `rejected` if there is any error, else `accepted:I0=[all_base_interfaces…]|I1=[…]` (definition order)
 #![allow(unused_imports, dead_code)]
 use crate::compile::*;
 use slicec::compilation_state::CompilationState;
+use slicec::diagnostics::{Diagnostic, DiagnosticLevel};
 use slicec::grammar::*;
+use slicec::slice_file::Span;
 use slicec::slice_options::SliceOptions;
+use std::collections::{BTreeMap, BTreeSet};
+
+struct TypeInfo<'a> {
+    id: String,
+    span: &'a Span,
+    fields: Vec<&'a Field>,
+}
+
+/// struct/enum leaves of a type reference (through optional, sequence, dictionary key/value, result success/failure);
+/// the depth guard only matters for the ill-founded types of D-05c
+fn leaves(t: &TypeRef, depth: usize, out: &mut Vec<String>) {
+    if depth > 64 { return; }
+    if let TypeRefDefinition::Unpatched(_) = &t.definition { return; }
+    match t.concrete_type() {
+        Types::Struct(s) => out.push(s.module_scoped_identifier()),
+        Types::Enum(e) => out.push(e.module_scoped_identifier()),
+        Types::Sequence(s) => leaves(&s.element_type, depth + 1, out),
+        Types::Dictionary(d) => { leaves(&d.key_type, depth + 1, out); leaves(&d.value_type, depth + 1, out); }
+        Types::ResultType(r) => { leaves(&r.success_type, depth + 1, out); leaves(&r.failure_type, depth + 1, out); }
+        Types::Primitive(_) | Types::CustomType(_) => {}
+    }
+}
+
+fn list(v: &[String]) -> String { format!("[{}]", v.join("|")) }
+
+fn cycles(state: CompilationState, options: SliceOptions) -> String {
+    let CompilationState { ast, diagnostics, files } = state;
+    let diags = diagnostics.into_updated(&ast, &files, &options);
+
+    // the containment graph as the AST has it
+    let structs: Vec<_> = files.iter().flat_map(|f| f.contents.iter()).filter_map(|d| if let Definition::Struct(p) = d { Some(p.borrow()) } else { None }).collect();
+    let enums: Vec<_> = files.iter().flat_map(|f| f.contents.iter()).filter_map(|d| if let Definition::Enum(p) = d { Some(p.borrow()) } else { None }).collect();
+    let aliases: Vec<_> = files.iter().flat_map(|f| f.contents.iter()).filter_map(|d| if let Definition::TypeAlias(p) = d { Some(p.borrow()) } else { None }).collect();
+    let mut types: Vec<TypeInfo> = vec![];
+    for s in &structs { types.push(TypeInfo { id: s.module_scoped_identifier(), span: &s.span, fields: s.fields() }); }
+    for e in &enums { types.push(TypeInfo { id: e.module_scoped_identifier(), span: &e.span, fields: e.enumerators().into_iter().flat_map(|x| x.fields()).collect() }); }
+    let index: BTreeMap<&str, usize> = types.iter().enumerate().map(|(i, t)| (t.id.as_str(), i)).collect();
+    let n = types.len();
+    let mut reach = vec![vec![false; n]; n];
+    for (i, t) in types.iter().enumerate() {
+        for f in &t.fields {
+            let mut l = vec![]; leaves(&f.data_type, 0, &mut l);
+            for x in l { if let Some(&j) = index.get(x.as_str()) { reach[i][j] = true; } }
+        }
+    }
+    let step = reach.clone();
+    for k in 0..n { for i in 0..n { if reach[i][k] { for j in 0..n { if reach[k][j] { reach[i][j] = true; } } } } }
+    let mut oncycle: Vec<String> = (0..n).filter(|&i| reach[i][i]).map(|i| types[i].id.clone()).collect();
+    oncycle.sort();
+
+    // the reports
+    let mut failures: Vec<String> = vec![];
+    let mut e032: Vec<String> = vec![];
+    let mut e019: Vec<String> = vec![];
+    let mut named: BTreeSet<usize> = BTreeSet::new();
+    for d in diags.iter().filter(|d| d.level() == DiagnosticLevel::Error) {
+        match d.code() {
+            "E032" => {
+                let root = d.span().and_then(|s| types.iter().position(|t| t.span == s));
+                let Some(root) = root else { failures.push("an E032 diagnostic does not point at a struct or enum".into()); e032.push("?".into()); continue };
+                let message = d.message();
+                let mut links: Vec<(usize, &Field)> = vec![];
+                for note in d.notes() {
+                    let hit = note.span.as_ref().and_then(|s| types.iter().enumerate().find_map(|(i, t)| t.fields.iter().find(|f| &f.span == s).map(|f| (i, *f))));
+                    match hit { Some(h) => links.push(h), None => failures.push(format!("a note of the report for {} does not point at a field", types[root].id)) }
+                }
+                e032.push(format!("{}:{}", types[root].id, links.iter().map(|(c, f)| format!("{}.{}", types[*c].id, f.identifier())).collect::<Vec<_>>().join(",")));
+                // closed path of fields starting (and ending) at the root
+                if links.is_empty() { failures.push(format!("the report for {} has no chain", types[root].id)); continue; }
+                if links[0].0 != root { failures.push(format!("the chain reported for {} does not start at it", types[root].id)); }
+                for (k, (c, f)) in links.iter().enumerate() {
+                    let next = if k + 1 < links.len() { links[k + 1].0 } else { root };
+                    let mut l = vec![]; leaves(&f.data_type, 0, &mut l);
+                    if !l.iter().any(|x| x == &types[next].id) {
+                        failures.push(format!("reported link {}.{} does not contain {}", types[*c].id, f.identifier(), types[next].id));
+                    }
+                    if !message.contains(types[*c].id.as_str()) { failures.push(format!("the message of the report for {} does not name {}", types[root].id, types[*c].id)); }
+                    named.insert(*c);
+                    let _ = step[*c][next];
+                }
+            }
+            "E019" => {
+                match d.span().and_then(|s| aliases.iter().find(|a| &a.span == s)) {
+                    Some(a) => e019.push(a.module_scoped_identifier()),
+                    None => { failures.push("an E019 diagnostic does not point at a type alias".into()); e019.push("?".into()); }
+                }
+            }
+            _ => {}
+        }
+    }
+    e032.sort();
+    e019.sort();
+    for i in 0..n { if reach[i][i] && !named.contains(&i) { failures.push(format!("{} contains itself but no reported cycle names it", types[i].id)); } }
+    if oncycle.is_empty() && !e032.is_empty() { failures.push("a cycle is reported although no type contains itself".into()); }
+    let oracle = if failures.is_empty() { "ok".to_string() } else { format!("FAIL({})", failures.join("; ")) };
+    format!("E032={};E019={};oncycle={} oracle={}", list(&e032), list(&e019), list(&oncycle), oracle)
+}
+
+fn alias(state: CompilationState, options: SliceOptions) -> String {
+    let CompilationState { ast, diagnostics, files } = state;
+    let diags = diagnostics.into_updated(&ast, &files, &options);
+    let aliases: Vec<_> = files.iter().flat_map(|f| f.contents.iter()).filter_map(|d| if let Definition::TypeAlias(p) = d { Some(p.borrow()) } else { None }).collect();
+    let errors: Vec<&Diagnostic> = diags.iter().filter(|d| d.level() == DiagnosticLevel::Error).collect();
+    let mut e019: Vec<String> = errors.iter().filter(|d| d.code() == "E019")
+        .map(|d| d.span().and_then(|s| aliases.iter().find(|a| &a.span == s)).map_or("?".to_string(), |a| a.module_scoped_identifier())).collect();
+    e019.sort();
+    let e033 = errors.iter().filter(|d| d.code() == "E033").count();
+    format!("E019={};E033={};rejected={}", list(&e019), e033, !errors.is_empty() as u8)
+}
+
+fn inherit(state: CompilationState, options: SliceOptions) -> String {
+    let CompilationState { ast, diagnostics, files } = state;
+    let diags = diagnostics.into_updated(&ast, &files, &options);
+    if diags.iter().any(|d| d.level() == DiagnosticLevel::Error) { return "rejected".to_string(); }
+    let v: Vec<String> = files.iter().flat_map(|f| f.contents.iter()).filter_map(|d| if let Definition::Interface(p) = d { Some(p.borrow()) } else { None })
+        .map(|i| format!("{}=[{}]", i.identifier(), i.all_base_interfaces().iter().map(|b| b.identifier().to_string()).collect::<Vec<_>>().join(","))).collect();
+    format!("accepted:{}", v.join("|"))
+}
 
 pub fn project(state: CompilationState, options: SliceOptions, name: &str) -> String {
-    let _ = (&state, &options);
-    format!("unknown-projection:c05:{}", name)
+    match name {
+        "cycles" => cycles(state, options),
+        "alias" => alias(state, options),
+        "inherit" => inherit(state, options),
+        _ => format!("unknown-projection:c05:{}", name),
+    }
 }
